@@ -367,6 +367,33 @@ class CHECK(Check):
                 # quick: replacements and truncations only for the two small grammars, every third state block of the large one
                 texts = texts if d != 'mindsdb' else [t for i, t in enumerate(texts) if (i // 200) % 3 == 0]
             self.order_texts[d] = texts
+        # planner inputs for the order differential: the predictor-join model, the federated-query model and the time-series
+        # queries, each with <= 1 non-default feature (thorough 2), with their catalogs
+        from vf import predq, qgen
+        from vf.props import c08
+        plans = []
+        dd = 2 if tier == 'thorough' else 1
+        for a in qgen.assignments(predq.FEATURES, dd, full_products=[('shape', 'where')]):
+            q = predq.build(a)
+            if q is not None:
+                plans.append((q['sql'], q['kwargs']))
+        for a in qgen.assignments(c08.FEATURES, dd, full_products=[('shape', 'join'), ('join', 'where')]):
+            q = c08.build(a)
+            if q is not None:
+                plans.append((q['sql'], c08.catalog(q['catalog'])))
+        for window in (1, 2):
+            for ng in (0, 1, 2):
+                for cl, _ in predq.TS_CONDS:
+                    cond = dict(predq.TS_CONDS)[cl]
+                    sql = 'SELECT * FROM int1.tt AS t JOIN mindsdb.tp' + (' WHERE ' + cond.format(v=2) if cond else '')
+                    plans.append((sql, predq.ts_catalog(window, ng)))
+        seen_p, uniq = set(), []
+        for sql, kw in plans:
+            key = (sql, repr(kw))
+            if key not in seen_p:
+                seen_p.add(key)
+                uniq.append((sql, kw))
+        self.order_plans = uniq
         self.rops = histories.render_ops()
         self.rref = histories.render_references(self.rops)
         # warm imports (SLY builds the tables at import time; that must not run under the scheduler)
@@ -416,7 +443,48 @@ class CHECK(Check):
             step = 600
             for lo in range(0, n, step):
                 out.append(('order', d, lo, min(n, lo + step)))
+        for lo in range(0, len(self.order_plans), 400):
+            out.append(('order_plan', lo, min(len(self.order_plans), lo + 400)))
         return out
+
+    def run_order_plan(self, res, lo, hi):
+        """a slice of planner inputs planned front to back in one fresh process and back to front in another: every input must get the
+        same plan (or the same error) in both"""
+        from vf import histories
+        items = self.order_plans[lo:hi]
+
+        def plan_one(k):
+            from mindsdb_sql import parse_sql
+            from mindsdb_sql.planner import plan_query
+            sql, kw = items[k]
+            try:
+                return ('plan', histories.canon(repr(plan_query(parse_sql(sql), **copy.deepcopy(kw)).steps)))
+            except Exception as e:
+                return ('exc', type(e).__name__, str(e)[:200])
+
+        def observe_all(order):
+            return {k: plan_one(k) for k in order}
+
+        fwd = in_child(lambda: observe_all(range(len(items))))
+        bwd = in_child(lambda: observe_all(range(len(items) - 1, -1, -1)))
+        res.count('order_differential_plans', 2 * len(items))
+        res.key(('order_plan', lo))
+        diff = [k for k in range(len(items)) if fwd.get(k) != bwd.get(k)]
+        if diff:
+            k = diff[0]
+            alone = in_child(lambda: plan_one(k))
+            culprit = None
+            for j in range(len(items)):
+                if j != k:
+                    got = in_child(lambda: (plan_one(j), plan_one(k))[1])
+                    if got != alone:
+                        culprit = (j, got)
+                        break
+            msg = f'{len(diff)} of {len(items)} planner inputs (slice {lo}:{hi}) are planned differently front-to-back and back-to-front; e.g. {items[k][0]!r}'
+            if culprit is not None:
+                msg += f': after planning {items[culprit[0]][0]!r} it gives {str(culprit[1])[:300]!r}, alone {str(alone)[:300]!r}'
+            res.violation(f'order-of-earlier-plans-changes-result|{alone[0] if alone[0] != "exc" else alone[1]}', msg)
+        return res
 
     # ------------------------------------------------------------------ schedules
     def run(self, case):
@@ -437,6 +505,8 @@ class CHECK(Check):
             return self.run_order(res, case[1], case[2], case[3])
         if case[0] == 'readonly':
             return self.run_readonly(res, case[1], case[2])
+        if case[0] == 'order_plan':
+            return self.run_order_plan(res, case[1], case[2])
 
     def run_readonly(self, res, what, i):
         """the result of planning / rendering a tree must not depend on read-only calls made on that tree before"""
@@ -757,13 +827,13 @@ class CHECK(Check):
                 'schedules_explored': c.get('schedules', 0), 'max_scheduling_points_in_one_execution': max(agg['cover'].get('max_points', {0})),
                 'distinct_thread_outcomes': len(agg['cover'].get('distinct_outcomes', ())),
                 'history_call_pairs_covered': len(agg['cover'].get('history_edges', ())),
-                'order_differential_parses': c.get('order_differential_parses', 0), 'two_step_histories_over_planner_corpus': c.get('pair_histories', 0), 'two_step_renderer_histories': c.get('render_pair_histories', 0), 'planner_corpus_size': len(self.hcorpus),
+                'order_differential_parses': c.get('order_differential_parses', 0), 'order_differential_plans': c.get('order_differential_plans', 0), 'two_step_histories_over_planner_corpus': c.get('pair_histories', 0), 'two_step_renderer_histories': c.get('render_pair_histories', 0), 'planner_corpus_size': len(self.hcorpus),
                 'globals_changed_by_calls': sorted(str(x) for x in agg['cover'].get('globals_changed_by_a_call', ()))[:40],
                 'hash_seed_sweep_is_exhaustive': False, 'free_running_pass_is_sampling': True,
                 'lazy_globals_restored_before_every_schedule': getattr(self, 'nsnap', 0), 'operations': list(OPS), 'pairs': [list(p) for p in PAIRS],
                 'rule': 'schedules: every pair x all schedules with <= 1 preemption at call granularity, LINE granularity for 9 pairs, bound 2 at coarse granularity for 3 '
                         'pairs (thorough: bound 2 for all pairs, triples at bound 1); histories: all call sequences of depth 3 (thorough 4) over 21 operations with a shared '
-                        'environment; seeds 0..3 (thorough 0..31 + 2 random); all ordered pairs of a planner corpus as process histories and on one reused QueryPlanner; read-only calls (str, repr, to_tree, ==, copy, walk) on the tree before planning / rendering it; order differential: the one-token deviations of every parser state (all for sqlite / mysql, every third block of 200 for mindsdb in quick) parsed front-to-back and back-to-front in two fresh processes; states = distinct global-state digests + distinct thread outcome vectors'}
+                        'environment; seeds 0..3 (thorough 0..31 + 2 random); all ordered pairs of a planner corpus as process histories and on one reused QueryPlanner; read-only calls (str, repr, to_tree, ==, copy, walk) on the tree before planning / rendering it; order differential: the one-token deviations of every parser state (all for sqlite / mysql, every third block of 200 for mindsdb in quick) parsed front-to-back and back-to-front in two fresh processes, the same for the planner inputs of the predictor / federated / time-series query models with <= 1 non-default feature; states = distinct global-state digests + distinct thread outcome vectors'}
 
     def describe_case(self, case):
         return [str(x) for x in case]
